@@ -500,3 +500,97 @@ def c11_6(run):
     if n < 8:
         raise Inconclusive(f'vacuity: only {n} paths')
     run.require_reached(*run.cur.reach)
+
+
+# ----------------------------------------------------------------------------------------------------------------- C11-7
+@obligation('C11', 'C11-7 the sequencer reader (BlockStream): heights are requested one by one in increasing order without a gap, starting right after the last height recorded as submitted; a block is handed on under the height it was requested for')
+def c11_7(run):
+    import re as _re
+    from mirsym import models as M
+    from mirsym.engine import ok as _ok, err as _err, some as _some, none as _none, enum as _enum
+    R = _re.compile
+    H = {'tendermint::block::Height': 64, 'SequencerHeight': 64, 'Height': 64}
+
+    def h_fetch(ctx):
+        hgt = ctx.ex.deref_val(ctx.st, ctx.args[1])
+        ctx.st.log.append(('fetch', hgt))
+        k = sum(1 for e in ctx.st.log if e[0] == 'fetch')
+        done = z3.Bool(f'fetch_{k}_done')
+        blk = Obj('SequencerBlock', kind='opaque'); blk.attrs['ident'] = ('block_fetched_for', hgt)
+        return [(None, M.thunk_future(lambda ex, s2, fut: [(done, (lambda s3: _ok(s3.tr(fut.attrs['blk'])))), (z3.Not(done), _enum('Poll', 'Pending', []))], blk=blk))]
+    hooks = [(R(r'(^|::)fetch_block$'), h_fetch), (R(r'(^|::)Height::increment$'), lambda ctx: [(None, ctx.ex.deref_val(ctx.st, ctx.args[0]) + 1)]),
+             (R(r'(^|::)Height::value$'), lambda ctx: [(None, ctx.ex.deref_val(ctx.st, ctx.args[0]))]),
+             (R(r'^<(tendermint::block::)?Height as From<u32>>::from$'), lambda ctx: [(None, z3.ZeroExt(32, ctx.args[0]))]),
+             (R(r'FutureExt>::boxed$'), lambda ctx: [(None, M.make_box(ctx.args[0]))]),
+             (R(r'State::set_latest_requested_sequencer_height$'), lambda ctx: (ctx.st.log.append(('requested', ctx.ex.deref_val(ctx.st, ctx.args[1]))), [(None, ())])[1]),
+             (R(r'^<.* as (std::clone::)?Clone>::clone$'), lambda ctx: [(None, ctx.ex.deref_val(ctx.st, ctx.args[0]))])]
+    def h_project(ctx):
+        # pin-project-lite generates `project` inside an anonymous const with the impl header in the macro crate: resolve it by signature
+        from mirsym.engine import PUSHED
+        names = [n_ for n_ in ctx.ex.fns if n_.endswith('::project') and n_.startswith('relayer::read::_::') and 'BlockStream' in ctx.ex.fns[n_].sig]
+        if len(names) != 1:
+            raise Inconclusive(f'pin-project `project` for BlockStream not found: {names}')
+        ctx.ex.push(ctx.st, names[0], list(ctx.args), ctx.dest, ctx.nxt)
+        return PUSHED
+    hooks.append((R(r'<impl BlockStream>::project$'), h_project))
+    ex = loader.load(['astria-sequencer-relayer'], hooks=hooks, scalar_types=H, dep_adts=['tendermint'])
+    # (a) the builder: next = last fetched + 1, or 1
+    bf = [n for n in ex.fns if n.endswith('::build') and 'closure' not in n and 'read' in n]
+    if len(bf) != 1:
+        raise Inconclusive(f'BlockStreamBuilder::build not found: {bf}')
+    last = z3.BitVec('last_fetched_height', 64)
+    n = 0
+    for has in (True, False):
+        b = B.struct(ex, 'BlockStreamBuilder', last_fetched_height=_some(last) if has else _none())
+        for i, p in enumerate(run.explore(ex, ex.start(bf[0], [b]), allow_havoc=(r'^Arguments::|fmt::',))):
+            if p.kind != 'return':
+                run.prove(f'build: no panic [{has}, path {i}]', p.pc, z3.BoolVal(False), detail=p.info); continue
+            n += 1
+            hs = ex.deref_val(p, B.fld(ex, p, ex.deref_val(p, p.result), 'heights'))
+            run.prove(f'the stream starts right after the last fetched height (or at 1) [{has}, path {i}]', p.pc,
+                      z3.And(B.fld(ex, p, hs, 'next', 'Height') == (last + 1 if has else z3.BitVecVal(1, 64)), z3.BoolVal(ex.deref_val(p, B.fld(ex, p, hs, 'last_observed')).discr == 'None')))
+    # (b) one poll_next from an arbitrary idle state (no fetch in flight): schedules exactly `next` iff allowed, then yields it under that height or stays pending
+    pn = [n_ for n_ in ex.fns if n_.endswith('::poll_next') and 'closure' not in n_ and 'read' in n_]
+    if len(pn) != 1:
+        raise Inconclusive(f'BlockStream::poll_next not found: {pn}')
+    nxt, lo = z3.BitVec('next', 64), z3.BitVec('last_observed', 64)
+
+    def _arc_state():
+        a_ = Obj('Arc<State>', kind='arc'); a_.fields[('in', 0)] = Obj('relayer::state::State', kind='opaque')
+        return a_
+    for has_lo in (True, False):
+        for paused in (True, False):
+            heights = B.struct(ex, 'Heights', last_observed=_some(lo) if has_lo else _none(), next=nxt)
+            bs = B.struct(ex, 'BlockStream', heights=heights, future=_none(), height_in_flight=_none(), paused=z3.BoolVal(paused), state=_arc_state())
+            pin = Obj('Pin', kind='pin'); pin.fields[('in', 0)] = B.cell(bs); pin.fields[(None, 0)] = pin.fields[('in', 0)]
+            st = ex.start(pn[0], [pin, B.cell(Obj('Context'))])
+            st.pc.append(z3.ULT(nxt, z3.BitVecVal(1 << 62, 64)))
+            for i, p in enumerate(run.explore(ex, st, allow_havoc=(r'^Arguments::|fmt::',))):
+                lab = f'[last_observed set: {has_lo}, paused: {paused}, path {i}]'
+                if p.kind != 'return':
+                    run.prove(f'poll_next: no panic {lab}', p.pc, z3.BoolVal(False), detail=p.info); continue
+                n += 1
+                fetches = [e[1] for e in p.log if e[0] == 'fetch']
+                post = ex.deref_val(p, bs) if False else ex.read(p, p.roots['args'][0].fields[('in', 0)].loc) if False else None
+                allowed = z3.And(z3.BoolVal(has_lo and not paused), z3.ULE(nxt, lo))
+                run.sample({'has_last_observed': has_lo, 'paused': paused, 'path': i, 'fetches': len(fetches), 'result': str(p.result.discr)})
+                run.prove(f'a fetch is scheduled iff not paused and next <= last observed; at most one; for exactly `next` {lab}', p.pc,
+                          z3.And(z3.BoolVal(len(fetches) <= 1), z3.BoolVal(len(fetches) == 1) == allowed, *[f_ == nxt for f_ in fetches]))
+                pin1 = p.roots['args'][0]; bs1 = ex.deref_val(p, pin1.fields[('in', 0)])
+                next1 = B.fld(ex, p, ex.deref_val(p, B.fld(ex, p, bs1, 'heights')), 'next', 'Height')
+                hif = ex.deref_val(p, B.fld(ex, p, bs1, 'height_in_flight'))
+                run.prove(f'the next height to request advances by exactly one per scheduled fetch; the height in flight is remembered while the fetch is pending {lab}', p.pc,
+                          z3.And(next1 == nxt + len(fetches), z3.BoolVal((hif.discr == 'Some') == (p.result.discr == 'Pending')),
+                                 (ex.deref_val(p, hif.fields[('Some', 0)]) == nxt) if hif.discr == 'Some' else z3.BoolVal(True)))
+                r = p.result
+                if r.discr == 'Ready':
+                    item = ex.deref_val(p, r.fields[('Ready', 0)])
+                    if item.discr == 'Some':
+                        hgt, res = item.fields[('Some', 0)]
+                        blk = ex.deref_val(p, ex.deref_val(p, res).fields[('Ok', 0)])
+                        run.prove(f'a yielded block carries the height it was requested for {lab}', p.pc, z3.And(ex.deref_val(p, hgt) == nxt, z3.BoolVal(len(fetches) == 1 and blk.attrs.get('ident', (None, None))[0] == 'block_fetched_for'), blk.attrs['ident'][1] == nxt))
+                    else:
+                        run.prove(f'the stream reports nothing to do only when no fetch was scheduled {lab}', p.pc, z3.BoolVal(len(fetches) == 0))
+    if n < 8:
+        raise Inconclusive(f'vacuity: {n} paths')
+    run.require_reached(*run.cur.reach)
